@@ -91,6 +91,8 @@ def run(chk):
             if bad:
                 chk.violation("threshold-batch-%s-%s" % (c, j["id"]), {"curve": c, "job": j, "batch": got},
                               "batch_verify with capacity %d returned %s; the threshold says %s" % (j["cap"], got, j["expect"]))
+    # (B1) the composed machine: table histories x byte-level adversary through System's prover and verifier (MC_Library)
+    vlib.library_mc(chk, probes=("NV_CapErrorP", "NV_CapErrorV", "NV_AcceptedAfterIncrease"))
     # (B3) sessions on toy curves in which the capacity is the state of a generator table with a history (new, increases, copies): prove / verify
     # report InvalidGeneratorsLength exactly when the specification's table capacity is below the padded gate count (nothing else is compared)
     for curve, n in (("toy31723", 200 if q else 3000),):
